@@ -11,7 +11,17 @@ import shutil
 import sys
 
 NM = {'a': 'vqa', 'b': 'vqb', 'c': 'vqc', 'd': 'vqd', 'e': 'vqe', 'zz': 'zz9'}
-EXTRA = ['os', 'os.path', 'json.decoder', 'json.nosuch', 'sys', 'nosuchtop9', 'collections.abc', '_struct', 'email.mime.text', 'vqa.os']
+EXTRA = ['os', 'os.path', 'json.decoder', 'json.nosuch', 'sys', 'nosuchtop9', 'collections.abc', '_struct', 'email.mime.text', 'vqa.os',
+         # names with an empty component
+         'vqa.', 'vqa..vqc', 'vqa.vqc.', '', '.vqa' [1:] + '.', 'os.']
+
+
+class _Timeout(BaseException):
+    pass
+
+
+def _alarm(signum, frame):
+    raise _Timeout()
 
 
 def write(path, text=''):
@@ -25,6 +35,10 @@ def materialise(layout, base):
     files = []         # (path, dotted module name, is_package)
     for ri, spec in enumerate(layout, 1):
         root = os.path.join(base, 'r%d' % ri)
+        if spec.get('inpkg'):
+            # the source root is a directory inside a package: relative imports must not climb out of the root into it
+            write(os.path.join(base, 'vqo%d' % ri, '__init__.py'))
+            root = os.path.join(base, 'vqo%d' % ri, 'r%d' % ri)
         os.makedirs(root)
         roots.append(root)
         if spec.get('rinit'):
@@ -43,6 +57,9 @@ def materialise(layout, base):
                 # a compiled-extension child (an empty file with the platform's extension suffix): only its enumeration is judged
                 import importlib.machinery
                 write(os.path.join(root, 'vqa', 'vqx' + importlib.machinery.EXTENSION_SUFFIXES[0]))
+                # files whose stem is not an identifier although every character is a "word" character
+                write(os.path.join(root, 'vqa', 'k\u00b2.py'))
+                write(os.path.join(root, 'vqa', '9lives.py'))
             for key, nm in (('c', 'vqc'), ('d', 'vqd')):
                 ck = a[key]
                 if ck == 'module':
@@ -173,6 +190,24 @@ def main():
                     except Exception as e:  # noqa
                         impl = 'raises ' + type(e).__name__
                     rels.append({'ref': ref, 'impl': impl, 'spec': spec, 'file': path[len(base) + 1:]})
+            if is_pkg and cid % 40 == 0 and not any(r['file'].startswith('cwd:') for r in rels):
+                # the same file named relative to the current directory (an editor started inside the package); one probe in a
+                # few layouts only: a library that loops here costs the whole time limit
+                import signal
+                cwd = os.getcwd()
+                os.chdir(os.path.dirname(path))
+                signal.signal(signal.SIGALRM, _alarm)
+                signal.alarm(5)
+                try:
+                    impl = project.norm_package('.vqc', '__init__.py')
+                except ImportError:
+                    impl = 'ImportError'
+                except BaseException as e:  # noqa
+                    impl = 'raises ' + type(e).__name__
+                finally:
+                    signal.alarm(0)
+                    os.chdir(cwd)
+                rels.append({'ref': importlib.util.resolve_name('.vqc', package), 'impl': impl, 'spec': '.vqc', 'file': 'cwd:' + path[len(base) + 1:]})
         # children of the package the import system finds
         kids = []
         for pkg in ('vqa', 'vqa.vqc', 'vqa.vqd', 'vqb', 'json'):
